@@ -51,18 +51,14 @@ type SwapV2 struct {
 }
 
 func (s *SwapV2) GetBestTradeExactIn(ctx context.Context, outId, inId uint64, inAmount *big.Int, maxHops int32) *Trade {
+	// swapPools returns a snapshot of the registry taken under muPairs; the trader must NOT run under
+	// muPairs: it takes PairV2.lockOrders, and block execution takes muPairs (markDirty) under lockOrders
 	pairs := s.swapPools(ctx)
-
-	s.muPairs.RLock()
-	defer s.muPairs.RUnlock()
 
 	return s.trader.GetBestTradeExactIn(ctx, pairs, types.CoinID(outId), NewTokenAmount(types.CoinID(inId), inAmount), maxHops)
 }
 func (s *SwapV2) GetBestTradeExactOut(ctx context.Context, inId, outId uint64, outAmount *big.Int, maxHops int32) *Trade {
 	pairs := s.swapPools(ctx)
-
-	s.muPairs.RLock()
-	defer s.muPairs.RUnlock()
 
 	return s.trader.GetBestTradeExactOut(ctx, pairs, types.CoinID(inId), NewTokenAmount(types.CoinID(outId), outAmount), maxHops)
 }
@@ -85,6 +81,9 @@ func (s *SwapV2) swapPools(ctx context.Context) []EditableChecker {
 		return nil
 	default:
 	}
+
+	s.muPairs.RLock()
+	defer s.muPairs.RUnlock()
 
 	pools := make([]EditableChecker, 0, len(s.pairs))
 
